@@ -344,11 +344,12 @@ class World:
         self.bound_cls = {}
 
     # -- construction of functions ------------------------------------------
-    def new_func(self, name, mixins=(), linkback=False, main=False):
+    def new_func(self, name, mixins=(), linkback=False, main=False, named=True):
         from ovld import Ovld
 
         ov = Ovld(mixins=[self.funcs[m] for m in mixins], linkback=linkback)
-        ov.rename(name, name)
+        if named:
+            ov.rename(name, name)  # else: named by the library after its first registered function
         self.funcs[name] = ov
         if main:
             self.mod.FN = ov.dispatch
@@ -409,7 +410,8 @@ class World:
                 r = self.holder(fname).meth(*args, **kw)
                 return ["ok", self.log.take(), jsonable(r)]
             if kind == "call":
-                r = ov.dispatch(*args, **kw)
+                # (a derived function nothing was registered on has no dispatch function before its first use)
+                r = (ov.dispatch if hasattr(ov, "dispatch") else ov)(*args, **kw)
                 return ["ok", self.log.take(), jsonable(r)]
             elif kind == "bound":
                 r = self.holder(fname).meth(*args, **kw)
